@@ -347,7 +347,10 @@ def demoO : Oracle :=
     list := fun _ f _ => ⟨f.id != 2, false⟩
     parseErr := fun _ _ _ => false
     fault := fun _ => false
-    cancel := fun _ => false }
+    cancel := fun _ => false
+    block := fun _ => false
+    dlRd := true
+    dlWr := true }
 
 def demoScript : List Peer :=
   [.hdr true, .adv [.feat ⟨nsTLS, 1⟩ true, .feat ⟨2, 1⟩ true],
